@@ -73,6 +73,10 @@ def run_streams(chk, rng, fns, cells, pid):
         if r.chance(0.5):
             # swap classes, grouping pairs, attribute tests with counts, multi-cell indicators
             text += "\n".join(tablegen.gen_group_swap_rules(r, letters, [0x8000 | e.dots[0] for e in entries])) + "\n"
+        if r.chance(0.4):
+            # main-pass opcodes with handlers of their own (repword, nocont, compbrl, repeated, joinword, numeric mode ...)
+            text += "\n".join(tablegen.gen_exotic_rules(r, letters)) + "\n"
+            letters = letters + [45, 45, 49, 46]
         tf.write_text(text)
         gen_tables.append(("unicode.dis," + str(tf), letters + [32]))
     # corpus first: minimised cases that failed once (corpus/<pid>/*.json: table_list, case_line, exact)
@@ -113,6 +117,27 @@ def run_streams(chk, rng, fns, cells, pid):
                                      r.choice([4 * len(inp) + 8, r.range(0, len(inp) + 2), len(inp), 2 * len(inp)]), presence=pres,
                                      typeform=safety.gen_typeform(r, len(inp)) if pres & 1 and not cells else None)
             lines.append(ln)
+        # inputs built around the operand strings of the table's own special rules (joinword, repword, nocont, compbrl ...),
+        # placed first so that the capacity sweep below takes them
+        tpath = tl.split(",")[-1]
+        specials = safety.special_operands(tpath if os.path.isabs(tpath) else str(REPO / "tables" / tpath))
+        aimed = []
+        if specials:
+            filler = [c for c in (alphabet or [97, 98, 99, 100, 101, 111, 116, 110]) if c > 32] or [97]
+            for _ in range(6 if quick else 20):
+                inp = safety.gen_around_specials(r, specials, filler)
+                aimed.append(trans.case_line("T", r.choice([0, 0, 4]), inp, 6 * len(inp) + 20, presence=r.choice([0, 12, 15])))
+            if cells:
+                # the braille side: back-translate what the forward translation of these inputs gives
+                back = []
+                for fln, fres in zip(aimed, trans.run_cases(exe, tl, aimed, exact=1, env=env, timeout=300)):
+                    if fres.crash or fres.hang is not None or fres.ret != 1 or not (0 < fres.outlen <= 40):
+                        continue
+                    br = fres.out[:fres.outlen]
+                    back.append(trans.case_line(r.choice("BU"), int(fln.split()[2]) & 4, br, 4 * len(br) + 10, presence=r.choice([3, 15, 0])))
+                aimed = back
+            chk.tally("inputs_around_special_rules", len(aimed))
+        lines = aimed + lines
         if alphabet is None and not cells:
             for g in safety.gen_poison_probe(r) + safety.gen_poison_probe(r):
                 lines.append(trans.case_line(r.choice("TS"), r.choice([0, 0, 4]), g, 8 * len(g) + 20, presence=r.choice([0, 12])))
@@ -138,6 +163,21 @@ def run_streams(chk, rng, fns, cells, pid):
                 cur = r.range(0, len(br) - 1) if pres & 16 else -2
                 lines[2 * i] = trans.case_line(r.choice(fns), mode, br, r.choice([4 * len(br) + 10, r.range(0, len(br) + 2), len(br)]),
                                                cursor=cur, presence=pres)
+        # capacity sweep: a few of the cases again at EVERY capacity from 0 to a little above what they can need, with all
+        # optional arrays present (each exactly as long as documented): whatever is written when the output is just full, one
+        # short or one too long shows at one of them
+        nsw = 0
+        for l in list(lines):
+            sf = l.split("|")
+            f = sf[0].split()
+            inp = [int(x) for x in sf[1].split()] if len(sf) > 1 else []
+            if f[1] not in "TSBU" or not (0 < len(inp) <= 16) or int(f[3]) != len(inp):
+                continue
+            for cap in range(0, 3 * len(inp) + 4):
+                lines.append(trans.case_line(f[1], int(f[2]), inp, cap, presence=15 if f[1] in "TB" else 3))
+            nsw += 1
+            if nsw >= (3 if quick else 12):
+                break
         rs = trans.run_cases(exe, tl, lines, exact=1, env=env, timeout=400)
         for ln, res in zip(lines, rs):
             f = ln.split("|")[0].split()
